@@ -43,8 +43,12 @@ TolSet == 2                                        \* copied set points: represe
 TolPf == IF Tight THEN 30 ELSE IF Cfg.ac THEN 10000 ELSE 1000
 TolPfLoad == IF Tight THEN 300 ELSE IF Cfg.ac THEN 100000 ELSE 10000
 \* res_cost against the user's function at the SAME result powers: identical polynomials, so only rounding -- except
-\* pwl rows, whose cost is an auxiliary variable held above the segment lines to the complementarity tolerance
-TolCost == IF Tight THEN 100 ELSE 2000             \* micro EUR
+\* pwl rows, whose cost is an auxiliary variable y of the solver that is only driven onto the segment lines as far as the
+\* termination criteria demand.  Measured gap y - Pwl(p) over the thorough tier: <= 1.3e-7 EUR with the tightened
+\* options, < 2e-3 in 17 600 DC cases, up to 4.3e-3 EUR in 1 750 AC cases with default options (e.g. ext_grid pwl2 +
+\* storage lin: res_cost 5.158606, functions at the result 5.154298; 1.2e-7 apart with tightened options).  The default
+\* tolerances are an order of magnitude above that; the smallest effect looked for is 1 EUR (integer coefficients).
+TolCost == IF Tight THEN 100 ELSE IF Cfg.ac THEN 50000 ELSE 10000      \* micro EUR
 \* optimality gap of the interior point solution (observed <= 1e-6 relative); grid costs differ by >= 1 EUR
 TolOpt == 10000
 
